@@ -487,6 +487,11 @@ func genPackageOpt(r *vh.Rand, awkward, decorate bool) *gPackage {
 	defItem := false
 	badList := false
 	switch pickClash {
+	case 60: // (forced only: outside the random range) identifiers with non-ASCII letters: the BCL lexer takes unicode
+		// letters, the compiler builds descriptors with names protobuf does not allow
+		g.schemas = append(g.schemas, gSchema{Name: "\u00c9lan", Kind: "object", Props: []gProp{{Name: "na\u00efve", Ty: gTy{Kind: "string"}}}})
+		g.schemas[0].Props = append(g.schemas[0].Props, gProp{Name: "unicodeRef", Ty: gTy{Kind: "object", Ref: "\u00c9lan"}})
+		p.Clash = "unicode"
 	case 4: // topic / message names that are not fixed points of strcase.ToCamel (seeded C16-F), pinned
 		p.Topics = append(p.Topics,
 			gTopic{Name: "level2cache", Kind: "publish", Unnamed: true},
